@@ -99,6 +99,14 @@ def run(ctx):
     funcs = parser_functions(ctx)
     R.analysed["parser_functions"] = len(funcs)
 
+    # ---- D9: no memoising decorator on a parser function: the cache hashes its arguments, and a decoder-controlled argument may be an
+    # unhashable list / dict (TypeError), besides keeping decoded data alive between inputs
+    R.rule("C17-D9 no memoisation in the parser", 40, "no cache decorator on any function of the parse path")
+    MEMO_ = {"cache", "lru_cache", "cached_property", "memoize", "memoized"}
+    for f in sorted(funcs, key=lambda f: f.fq):
+        bad_d = [d for d in f.decorators if d.split(".")[-1] in MEMO_]
+        R.check("C17-D9 no memoisation in the parser", not bad_d, ctx.fq(f), mod=f.module, node=f.node, function=ctx.fq(f),
+                expected="arguments derived from the input are never hashed by a cache", found=f"decorated with {bad_d}: an unhashable argument raises TypeError")
     # ---- D1 escape analysis
     R.rule("C17-D1 only input errors escape", 40, "per parser function: every may-raise site that is not handled locally raises an allowed class")
     R.rule("C17-D1b from_cbor receives bytes", 12, "every call of a from_cbor passes bytes (or sits in a catch-all)")
